@@ -24,7 +24,7 @@
    render loop, from C01's content hypotheses - no wide cell overhangs the right edge), and
    [C12_app_in_term_full] is the composition without it.
 
-   What is still assumed in [C12_app_in_term_full]:
+   What is still assumed in [C12_app_in_term_full] (kept as it was):
    - C01's content hypotheses, frame by frame ([content_ok]: widths agree, measured widths are
      the oracle's, attribute masks are uint8, no sixel cell, no wide cell over the right edge);
    - two decidable hypotheses stated in the theorem (model/EmuWire.v): [wire_ok] on the
@@ -33,19 +33,56 @@
      is split differently by the emulator), a requested visible cursor has style 0..65535 and
      coordinates -1 <= x < 2^63 - 1 - and [size_ok] on the initial size and on every size
      change: fewer than 2^63 rows and columns (the 1-based CUP numbers fit a machine integer);
-   - the resize case: after a size change the emulator state is ASSUMED (a universally
-     quantified hypothesis inside [emu_history_full], as inside [emu_history_ok]) well-formed,
-     in Vaxis' modes and related by [emu_rel] to the resized reference terminal, about whose
-     cells nothing is known; Term.resize (which re-prints the old screen) is not shown to
-     produce such a state;
-   - [enc_tok] (token -> delivered sequence) is tied to the real parser only through the
-     differential run; drawing into a host window is C05_draw_inside plus the differential
-     run. *)
+   - the resize case, there a universally quantified hypothesis inside [emu_history_full].
+
+   The resize case is now a theorem ([C12_app_in_term_resize], proofs/EmuResize.v,
+   proofs/EmuHistory.v): a size change is T.resize (the model of term.go resize, which Draw
+   calls when the host window changed size: both screens reallocated, the old PRIMARY screen
+   re-printed up to the cursor row) followed by Vaxis' repaint.  [C12_resize_keeps_relation]:
+   from every well-formed emulator state in Vaxis' modes T.resize does not fail and yields a
+   well-formed state of the new size in Vaxis' modes (scrolling region = whole screen, autowrap
+   on, insert off, no character-set shift), with DECTCEM and cursor shape unchanged and the
+   deferred-wrap flag only on the last column, hence related by [emu_rel] to the resized
+   reference terminal [ref_resized] - whose cells are all DPoison, so the cell clause is
+   vacuous ([cell_rel DPoison = True], used in the proof, not assumed) and which is one of the
+   terminals C01's [resized] allows - EXCEPT for one clause that genuinely fails: the pen.
+   resize leaves the style of the last re-printed cell in the pen ([C12_resize_pen]: the last
+   cell of the row above the cursor on the old primary screen).  The precise, decidable
+   hypothesis is [resize_pen_ok t]: that style shows what the pen showed.  For a Vaxis
+   application it is a theorem: Vaxis runs on the alternate screen (mode 1049), its tokens
+   never touch the primary screen ([keeps_prim], now part of the simulation theorem), and if
+   the primary screen underneath is in the default style ([alt_plainb] of the start state)
+   the pen stays default through every resize ([C12_resize_alt]).  So
+   [C12_app_in_term_resize] quantifies only over content ([content_ok], [wire_ok], [size_ok])
+   and decidable facts about the start state; [C12_app_in_term_resize_any] is the form for
+   any start state with [resize_pen_ok] evaluated at every resize.  [C12_resize_pen_needed]:
+   over a primary screen with coloured text the hypothesis fails and the repaint after the
+   resize comes out in that colour (proposed finding resize-pen-leak, see the report).
+
+   [enc_tok] is now tied to the parser model of C02 ([C12_token_on_the_wire],
+   [C12_tokens_on_the_wire], proofs/EmuWireParse.v): for every token of the vocabulary the
+   parser model, from a clean ground state on the token's serialisation (format strings
+   translated from sequences.go), delivers exactly the sequence whose conversion to an emulator
+   item (as in C05's bytes theorem) is [enc_tok], and is in a clean ground state again; text
+   arrives one code point at a time, a maximal run of adjacent text tokens as one print, which
+   uniseg (oracle [seg]) cuts into clusters: under [seg_agrees] - every such run is cut back
+   into the graphemes of the cells with the widths [tw], no cluster forms across two cells, no
+   empty grapheme is written raw - the emulator receives exactly [enc_tok] of every token.
+   [C12_app_in_term_bytes] is the composition from BYTES: the emulator model fed the bytes of
+   every frame of every history shows the application's screen.  Additional per-frame
+   hypotheses there: [content_wf] (C01's printable-content hypothesis: graphemes, hyperlinks,
+   pointer shape free of C0 controls and surrogates) and the oracle hypothesis [seg_agrees].
+
+   Still not proved: drawing into a host window is C05_draw_inside plus the differential run;
+   the emulator's resize and parser are the models of C05/C06 and C02 (tied to the code by those
+   properties' differential runs and here by the end-to-end run). *)
 From Vx Require Import base.Prelude base.ListX model.Colour model.RenderTypes model.Render model.RefTerm
-  model.RenderSpec model.RenderCheck model.Gate model.EmuSpec model.EmuBridge model.EmuWire
-  proofs.RenderDelta proofs.RenderRow proofs.RenderFrame proofs.RenderHistory proofs.GateProofs proofs.EmuRefine
-  proofs.EmuToksOk.
-From Vx Require proofs.TermProofs proofs.TermRefine5.
+  model.RenderSpec model.RenderCheck model.Gate model.EmuSpec model.EmuBridge model.EmuWire model.RenderBytes
+  model.EmuBytes
+  proofs.RenderDelta proofs.RenderRow proofs.RenderFrame proofs.RenderHistory proofs.GateProofs proofs.RenderBytesWf
+  proofs.RenderBytesProofs proofs.EmuRefine
+  proofs.EmuToksOk proofs.EmuResize proofs.EmuHistory proofs.EmuWireParse proofs.EmuBytesHistory proofs.EmuStart.
+From Vx Require proofs.TermProofs proofs.TermRefine5 model.Parser.
 
 (* (a) under the emulator's capability set, every history makes every conforming terminal of
    that size show the application's screen and cursor after every frame *)
@@ -79,19 +116,20 @@ Print Assumptions C12_only_advertised_vocabulary.
    glyph and DPoison positions are free; cursor equal, the pending-wrap position being the
    emulator's deferred-wrap flag on the last column; pen, hyperlink, DECTCEM, cursor shape):
    feeding the token's encoding does not fail and re-establishes invariant, modes and relation
-   with the reference terminal's next state *)
+   with the reference terminal's next state; which screen is active, mode 1049 and - on the
+   alternate screen - the primary screen are not touched ([keeps_prim]) *)
 Theorem C12_emu_simulates_refterm : forall tw e w h (t : T.term) (r : term) (k : tok),
   TermProofs.WFs0 e w h t -> vaxis_modes t = true -> emu_rel t r ->
   allowed term_caps k = true /\ tok_ok k = true /\ fits tw r k ->
   exists t', emu_toks tw t [k] = T.TOk t' /\ TermProofs.WFs0 e w h t' /\ vaxis_modes t' = true /\
-             emu_rel t' (interp1 tw r k).
+             emu_rel t' (interp1 tw r k) /\ keeps_prim t t'.
 Proof. exact emu_simulates_refterm. Qed.
 Print Assumptions C12_emu_simulates_refterm.
 
 Theorem C12_emu_simulates_refterm_list : forall tw e w h (ks : list tok) (t : T.term) (r : term),
   TermProofs.WFs0 e w h t -> vaxis_modes t = true -> emu_rel t r -> toks_ok tw r ks ->
   exists t', emu_toks tw t ks = T.TOk t' /\ TermProofs.WFs0 e w h t' /\ vaxis_modes t' = true /\
-             emu_rel t' (interp tw r ks).
+             emu_rel t' (interp tw r ks) /\ keeps_prim t t'.
 Proof. exact emu_simulates_refterm_list. Qed.
 Print Assumptions C12_emu_simulates_refterm_list.
 
@@ -152,6 +190,192 @@ Proof.
     intros r Hin; apply zrepeat_In in Hin; subst r; rewrite zlen_repeat by lia; congruence.
 Qed.
 Print Assumptions C12_app_in_term_full.
+
+(* ---------------------------------------------------------------- A. the resize case *)
+
+(* T.resize from every well-formed emulator state in Vaxis' modes related to a reference
+   terminal [r]: it does not fail; the result is well-formed at the new size, in Vaxis' modes,
+   and related to the resized reference terminal [ref_resized r t2] (new size, every cell
+   unknown, cursor wherever the emulator has it, pen / hyperlink / DECTCEM / shape / mode 2026
+   / pointer shape as before), which is one of the terminals C01's history theorem allows after
+   a size change ([resized]).  One hypothesis, decidable, on the state before the resize:
+   [resize_pen_ok] - the pen the resize leaves shows what the pen showed *)
+Theorem C12_resize_keeps_relation : forall e w h (t : T.term) (r : term) w2 h2,
+  TermProofs.WFs0 e w h t -> vaxis_modes t = true -> emu_rel t r -> 1 <= w2 -> 1 <= h2 ->
+  resize_pen_ok t = true ->
+  exists t2, T.resize t w2 h2 = T.TOk t2 /\ TermProofs.WFs0 e w2 h2 t2 /\ vaxis_modes t2 = true /\
+    emu_rel t2 (ref_resized r t2) /\ resized r (ref_resized r t2) h2 w2.
+Proof. exact resize_rel. Qed.
+Print Assumptions C12_resize_keeps_relation.
+
+(* which pen that is: the style of the last cell of the row above the cursor on the old
+   PRIMARY screen (the pen itself when the cursor is on the first row) - so the clause of
+   emu_rel that a resize can break is exactly the pen *)
+Theorem C12_resize_pen : forall e w h (t : T.term), TermProofs.WFs0 e w h t ->
+  resize_pen t = if T.t_row t =? 0 then T.t_pen t
+                 else match gget (T.t_prim t) (T.t_row t - 1) (w - 1) with
+                      | Some c => T.c_st c
+                      | None => T.t_pen t
+                      end.
+Proof. exact resize_pen_closed. Qed.
+Print Assumptions C12_resize_pen.
+
+(* for a Vaxis application the hypothesis is a theorem: on the alternate screen (mode 1049)
+   over a primary screen in the default style, with the default pen (as every frame leaves
+   it), the resize re-establishes everything, including that situation *)
+Theorem C12_resize_alt : forall e w h (t : T.term) (r : term) w2 h2,
+  TermProofs.WFs0 e w h t -> vaxis_modes t = true -> emu_rel t r -> 1 <= w2 -> 1 <= h2 ->
+  tm_pen r = tpen0 -> tm_link r = ([], []) -> alt_plain t ->
+  exists t2, T.resize t w2 h2 = T.TOk t2 /\ TermProofs.WFs0 e w2 h2 t2 /\ vaxis_modes t2 = true /\
+    emu_rel t2 (ref_resized r t2) /\ resized r (ref_resized r t2) h2 w2 /\ alt_plain t2.
+Proof. exact resize_rel_alt. Qed.
+Print Assumptions C12_resize_alt.
+
+(* the history theorem with the resize case proved: the emulator is resized by T.resize, Vaxis
+   repaints.  [emu_history_resize] mentions no reference terminal; its hypotheses are, per
+   frame, content_ok and wire_ok, per size change size_ok - content only.  The start state is any
+   well-formed emulator state of that size in Vaxis' modes with the default pen, the cursor
+   hidden ([start_ok]), on the alternate screen over a primary screen in the default style
+   ([alt_plainb]) - decidable facts about one state, all true of the emulator after New(),
+   StartWithSize and Vaxis' start-up at every size ([C12_start_state]) *)
+Theorem C12_app_in_term_resize : forall tw measure rows cols (t0 : T.term) e (fs : list frame),
+  1 <= rows -> 1 <= cols -> size_ok rows cols ->
+  TermProofs.WFs0 e cols rows t0 -> vaxis_modes t0 = true -> start_ok t0 = true -> alt_plainb t0 = true ->
+  emu_history_resize (fun _ => True) tw measure (vinit term_caps rows cols) rows cols t0 fs.
+Proof. exact app_in_term_resize. Qed.
+Print Assumptions C12_app_in_term_resize.
+
+(* any start state (also the primary screen, also a primary screen with styled text underneath):
+   at every size change the decidable hypothesis resize_pen_ok on the emulator state *)
+Theorem C12_app_in_term_resize_any : forall tw measure rows cols (t0 : T.term) e (fs : list frame),
+  1 <= rows -> 1 <= cols -> size_ok rows cols ->
+  TermProofs.WFs0 e cols rows t0 -> vaxis_modes t0 = true -> start_ok t0 = true ->
+  emu_history_resize (fun t => resize_pen_ok t = true) tw measure (vinit term_caps rows cols) rows cols t0 fs.
+Proof. exact app_in_term_resize_any. Qed.
+Print Assumptions C12_app_in_term_resize_any.
+
+(* the start state, for every size from 1x1 *)
+Theorem C12_start_state : forall cols rows, 1 <= cols -> 1 <= rows ->
+  let t := emu_start cols rows in
+  TermProofs.WFs0 0 cols rows t /\ vaxis_modes t = true /\ start_ok t = true /\ alt_plainb t = true.
+Proof. exact emu_start_ready. Qed.
+Print Assumptions C12_start_state.
+
+(* so: every history from the start state, at every size - hypotheses on content only *)
+Theorem C12_app_in_term_from_start : forall tw measure rows cols (fs : list frame),
+  1 <= rows -> 1 <= cols -> size_ok rows cols ->
+  emu_history_resize (fun _ => True) tw measure (vinit term_caps rows cols) rows cols (emu_start cols rows) fs.
+Proof. exact app_in_term_from_start. Qed.
+Print Assumptions C12_app_in_term_from_start.
+
+(* what [emu_history_resize] says for a Render, a size change and a Refresh, spelled out *)
+Example C12_history_resize_unfolds : forall tw measure s rows cols t ops ops2 rows2 cols2,
+  emu_history_resize (fun _ => True) tw measure s rows cols t [(ops, FRender); (ops2, FResize rows2 cols2)] =
+  (let s1 := fold_left apply_op ops s in
+   content_ok tw measure term_caps s1 -> wire_ok s1 = true ->
+   let '(s', o) := do_frame s ops FRender in
+   exists t', emu_toks tw t o = T.TOk t' /\
+     grid_shows term_caps (v_next s1) (grid_of t') = true /\
+     cursor_shows rows cols (v_cnext s1) (ecursor_of t') = true /\
+     (1 <= rows2 -> 1 <= cols2 -> size_ok rows2 cols2 -> True ->
+      exists t2, T.resize t' cols2 rows2 = T.TOk t2 /\ True)).
+Proof.
+  intros. cbn [emu_history_resize]. cbv zeta.
+  destruct (do_frame s ops FRender) as [s' o]. reflexivity.
+Qed.
+
+(* the hypothesis resize_pen_ok is not gratuitous (proposed finding resize-pen-leak): an
+   emulator that showed a line of text on red before the application started; the application
+   draws, the window is resized, the application repaints an 'a' in the default style - the
+   hypothesis fails at the resize, and the emulator model shows the 'a' (and the whole
+   repainted screen) on red *)
+Example C12_resize_pen_needed :
+  let tw := lookup_w [([97], 1); ([], 0)] in
+  let a := {| c_g := [97]; c_w := 0; c_mw := 1; c_st := style0; c_sixel := false |} in
+  let get r := match r with T.TOk t => t | _ => T.term_new end in
+  let dirty := get (emu_feed (get (T.term_start 3 2))
+     [T.TCsi [] [[41]] 109; T.TPrint [120] 1; T.TPrint [120] 1; T.TPrint [120] 1; T.TCsi [] [] 109; T.TCsi [] [] 72;
+      T.TCsi [63] [[1049]] 104; T.TCsi [63] [[25]] 108]) in
+  let s0 := vinit term_caps 2 3 in
+  let f1 := do_frame s0 [OSet 0 0 a; OShowCursor 0 1 0] FRender in
+  let t1 := get (emu_toks tw dirty (snd f1)) in
+  let t2 := get (T.resize t1 4 2) in
+  let s2 := do_resize (fst f1) 2 4 in
+  let f3 := do_frame s2 [OSet 0 0 a] FRender in
+  let t3 := get (emu_toks tw t2 (snd f3)) in
+  vaxis_modes dirty = true /\ start_ok dirty = true /\ alt_plainb dirty = false /\
+  grid_shows term_caps (v_next (fold_left apply_op [OSet 0 0 a; OShowCursor 0 1 0] s0)) (grid_of t1) = true /\
+  resize_pen_ok t1 = false /\
+  grid_shows term_caps (v_next (fold_left apply_op [OSet 0 0 a] s2)) (grid_of t3) = false.
+Proof. vm_compute. repeat split. Qed.
+
+(* ---------------------------------------------------------------- B. enc_tok against the parser model *)
+
+(* one token of the vocabulary (allowed under term_caps, tok_ok, strings printable and made of
+   code points Go writes as themselves): the parser model of C02, from ANY clean ground state
+   (ground, no string pending, no string data left over), run on the token's serialisation
+   [ser k], consumes it entirely, delivers [wire_items k] and is in a clean ground state again;
+   and - for every token that is not text - those items, converted to emulator items as in
+   C05's bytes theorem, are exactly [enc_tok tw k].  For text ([KText g], [KSpace])
+   [wire_items] is the code points one by one: see the next theorem *)
+Theorem C12_token_on_the_wire : forall tw seg (k : tok), tok_wire_ok k = true ->
+  (forall p, clean p -> exists p', Parser.feed p (ser k) = (p', wire_items k, true) /\ clean p') /\
+  (tok_cluster tw k = None -> of_items seg (wire_items k) = enc_tok tw k).
+Proof. intros tw seg k H. split; [exact (tok_delivers k H)|exact (wire_items_enc tw seg k H)]. Qed.
+Print Assumptions C12_token_on_the_wire.
+
+(* token lists, from the bytes: Parser.parse_bytes (one read: UTF-8 decoding, the machine from
+   its initial state, adjacent printed code points joined, end of input) on [ser_bytes ks]
+   hands the emulator [enc_tok tw] of every token and then the end of input, provided uniseg
+   cuts every maximal run of adjacent text tokens back into the graphemes of the cells, with
+   the widths [tw] ([seg_agrees]: decidable given the oracle's answers; it also asks that no
+   empty grapheme is written raw) *)
+Theorem C12_tokens_on_the_wire : forall tw seg (ks : list tok),
+  forallb tok_wire_ok ks = true -> seg_agrees tw seg ks = true ->
+  of_items seg (Parser.parse_bytes (ser_bytes ks)) = flat_map (enc_tok tw) ks ++ [T.TOther] /\
+  forall t, emu_bytes seg t (ser_bytes ks) = emu_toks tw t ks.
+Proof.
+  intros tw seg ks H1 H2. split; [exact (wire_exact tw seg ks H1 H2)|].
+  intros t. exact (emu_bytes_toks tw seg t ks H1 H2).
+Qed.
+Print Assumptions C12_tokens_on_the_wire.
+
+(* the composition from BYTES: every history, the emulator model fed the bytes of every frame
+   (through the parser model and uniseg as an oracle), resized by T.resize at every size
+   change: after every Render / Refresh its grid and cursor show the application's screen.
+   Per frame: content_ok, wire_ok, printable content ([content_wf], C01's hypothesis for the
+   wire) and the oracle hypothesis seg_agrees on the frame's tokens; per size change: size_ok *)
+Theorem C12_app_in_term_bytes : forall tw measure seg rows cols (fs : list frame),
+  1 <= rows -> 1 <= cols -> size_ok rows cols ->
+  emu_history_bytes (fun _ => True) tw measure seg (vinit term_caps rows cols) rows cols (emu_start cols rows) fs.
+Proof. exact app_in_term_bytes_from_start. Qed.
+Print Assumptions C12_app_in_term_bytes.
+
+Example C12_history_bytes_unfolds : forall tw measure seg s rows cols t ops,
+  emu_history_bytes (fun _ => True) tw measure seg s rows cols t [(ops, FRender)] =
+  (let s1 := fold_left apply_op ops s in
+   content_ok tw measure term_caps s1 -> wire_ok s1 = true -> content_wf s1 ->
+   let '(s', o) := do_frame s ops FRender in
+   seg_agrees tw seg o = true ->
+   exists t', emu_bytes seg t (ser_bytes o) = T.TOk t' /\
+     grid_shows term_caps (v_next s1) (grid_of t') = true /\
+     cursor_shows rows cols (v_cnext s1) (ecursor_of t') = true /\
+     True).
+Proof.
+  intros. cbn [emu_history_bytes]. cbv zeta.
+  destruct (do_frame s ops FRender) as [s' o]. reflexivity.
+Qed.
+
+(* the oracle hypothesis is satisfiable and not gratuitous: two flags in adjacent cells are
+   cut back into the two flags; a lone regional indicator next to another one is not - the
+   terminal joins them into one flag *)
+Example C12_seg_agrees_example :
+  let tw := lookup_w [([127465; 127466], 2); ([127465], 1); ([127466], 1)] in
+  let seg := lookup_seg [([127465; 127466; 127465; 127466], [([127465; 127466], 2); ([127465; 127466], 2)]);
+                         ([127465; 127466], [([127465; 127466], 2)])] in
+  seg_agrees tw seg [KCup 1 1; KText [127465; 127466]; KText [127465; 127466]; KSgrReset] = true /\
+  seg_agrees tw seg [KCup 1 1; KText [127465]; KText [127466]; KSgrReset] = false.
+Proof. vm_compute. split; reflexivity. Qed.
 
 (* what [emu_history_full] says for a history of one Render, spelled out (the definition is a
    Fixpoint in proofs/EmuToksOk.v): no side condition is left *)
@@ -217,10 +441,11 @@ Proof.
     + reflexivity.
 Qed.
 
-(* and frames run end to end on the emulator model: the tokens of a history with a wide cell,
-   colours, attributes, a hyperlink and a cursor satisfy the side condition [toks_ok] (in its
-   decidable form) and the emulator model ends with a grid and cursor that satisfy the
-   predicate evaluated on the real emulator *)
+(* and frames run end to end on the emulator model, from bytes: a history with a wide cell,
+   colours, attributes, a hyperlink, a cursor, a size change (shrinking below the cursor) and
+   the repaint after it: the tokens satisfy the side condition [toks_ok] (in its decidable
+   form), the oracle hypothesis holds of every frame, and the emulator model fed the bytes ends
+   every frame with a grid and cursor that satisfy the predicate evaluated on the real emulator *)
 Example C12_model_example :
   let st := {| s_fg := index_color 3; s_bg := rgb_color 1 2 3; s_ul := 0; s_uls := 3; s_attr := 6;
                s_link := [104]; s_linkp := [105; 100] |} in
@@ -228,9 +453,15 @@ Example C12_model_example :
   let a := {| c_g := [97]; c_w := 0; c_mw := 1; c_st := style0; c_sixel := false |} in
   let fr ops e := {| ef_ops := ops; ef_end := e; ef_toks := []; ef_grid := []; ef_cur := (0, 0, false, 0);
                      ef_host := []; ef_hostcur := (0, 0, false, 0) |} in
-  let c := {| e_rows := 2; e_cols := 3; e_widths := [([97], 1); ([28450], 2); ([], 0)]; e_caps := [];
+  let c := {| e_rows := 2; e_cols := 3; e_widths := [([97], 1); ([28450], 2); ([], 0)];
+              e_segs := [([28450], [([28450], 2)]); ([97], [([97], 1)]); ([32], [([32], 1)]);
+                         ([32; 32; 32], [([32], 1); ([32], 1); ([32], 1)]); ([97; 32], [([97], 1); ([32], 1)]);
+                         ([97; 32; 97], [([97], 1); ([32], 1); ([97], 1)]);
+                         ([97; 32; 32; 32], [([97], 1); ([32], 1); ([32], 1); ([32], 1)])];
+              e_caps := []; e_pre := [];
               e_frames := [fr [OSet 0 0 wide; OSet 2 0 a; OShowCursor 1 1 4] FRender;
-                           fr [OSet 0 0 a; OSet 1 1 wide] FRender; fr [] FRefresh] |} in
+                           fr [OSet 0 0 a; OSet 1 1 wide] FRender; fr [] FRefresh;
+                           fr [] (FResize 1 4); fr [OSet 0 0 a] FRender] |} in
   c12_side_holds c = true /\ c12_model_holds c = true.
 Proof. vm_compute. split; reflexivity. Qed.
 
